@@ -49,8 +49,12 @@ RULES = {
     "list of lists and opens a new list when the limit would be exceeded), the test that opens a new shard asks whether the "
     "current shard holds a tensor (`shards[-1]`, `len(shards[-1])`), never whether a byte counter is positive - zero-size tensors "
     "leave the counter at 0, so an oversized tensor would join them and the shard would exceed the limit while holding several tensors",
+    "R12": "each file gets its own tensors (shared rule S5, extended to consumer calls): in the save path, a local collection that is "
+    "grown inside the per-shard loop and handed to a writer call (or stored) once per iteration is created inside that loop - "
+    "created before it, shard k is written with the tensors of shards 1..k: tensors stored in several files, shards far over "
+    "the limit holding many tensors, and every loaded tensor pointing at the last shard",
 }
-FLOORS = {"R1": 4, "R2": 4, "R3": 20, "R4": 1, "R5": 3, "R6": 25, "R7": 1, "R8": 2, "R9": 1, "R10": 1, "R11": 2}
+FLOORS = {"R1": 4, "R2": 4, "R3": 20, "R4": 1, "R5": 3, "R6": 25, "R7": 1, "R8": 2, "R9": 1, "R10": 1, "R11": 2, "R12": 3}
 EXPLANATION = (
     "Class-qualified effect summaries of the try bodies and finally blocks of the two save entry points; data-flow "
     "checks on the initializer collection loops and on the offset accumulators; table agreement between the "
@@ -531,7 +535,30 @@ def rule_r11(ctx):
     ctx.require(n >= 2, f"only {n} shard planners found")
 
 
+def rule_r12(ctx):
+    from ..shared import leaked_iteration_collections
+
+    n = 0
+    for mn in ("onnx_ir.external_data", "onnx_ir._safetensors", "onnx_ir._io"):
+        for f in ctx.repo.module(mn).all_funcs:
+            if isinstance(f.node, ast.Lambda):
+                continue
+            loops = [x for x in own_nodes(f.node) if isinstance(x, (ast.For, ast.While))]
+            n += len(loops)
+            for name, lp, x in leaked_iteration_collections(f, calls=True):
+                ctx.check("R12", f"{f.local}: `{name}` is created inside the loop that consumes it", False, f, x,
+                          f"`{name}` grows inside the loop, is handed to `{norm(x)[:70]}` once per iteration, but is created before the loop: iteration k "
+                          "passes on the entries of iterations 1..k - a shard file written with the tensors of all earlier shards",
+                          how="S5: collections grown in a loop and consumed per iteration (store or call argument) are created in that loop",
+                          construct=f"collection {name} outlives its iteration in {f.local}")
+    for _ in range(n):
+        ctx.counts["R12"] = ctx.counts.get("R12", 0) + 1
+    ctx.ob("R12", f"{n} loops of the save path examined", True, nontrivial=False, how="S5")
+    ctx.require(n >= 3, f"only {n} loops found in the save path")
+
+
 def run(ctx):
+    rule_r12(ctx)
     rule_r11(ctx)
     rule_r10(ctx)
     rule_r9(ctx)
